@@ -227,6 +227,11 @@ FIXED = [
     ("hubbard-atom", "site A 1 2\naddCoulombS A 2 -1\nsymm ignore\nbeta 4\n", 2, "ignore", "real", [(1, 0), (0, 1), (0, 0)]),
     ("atomic-limit", "site A 1 2\nsite B 1 2\naddCoulombS A 2 -1\naddCoulombS B 2 -1\nsymm default\nbeta 25\n", 4, "default", "real",
      [(0, 0), (0, 2), (3, 3)]),
+    # complex matrix-element build in EVERY tier: complex hopping and complex spin mixing, so that G_ij != G_ji and an
+    # (i,j) <-> (j,i) mix-up between the stand-alone object and the container element is visible
+    ("two-site-complex", "site A 1 2\nsite B 1 2\naddCoulombS A 2 -1\naddLevel B 0.25\naddHopping4 A B 0.5,0.25\n"
+     "addHopping8 A B 0.25,-0.5 0 0 0 1\nsymm default\nbeta 2\n", 4, "default", "complex",
+     [(0, 2), (2, 0), (0, 3), (3, 0), (1, 2), (0, 0)]),
 ]
 
 ASAN_CASES = [
